@@ -6,6 +6,8 @@
 package main
 
 import (
+	"crypto/tls"
+	"encoding/base64"
 	"fmt"
 	"math"
 	"net"
@@ -278,6 +280,120 @@ func scClientField(key, field string, alt int) func(x *vs.Exec) {
 	}
 }
 
+// ---- (a2) malformed user-side input on the tcpmux (HTTP CONNECT) and https (SNI) ports ----
+
+func connectCases() [][]byte {
+	var out [][]byte
+	b64 := func(x string) string { return base64.StdEncoding.EncodeToString([]byte(x)) }
+	for _, pa := range []string{"", "Basic", "x", "Basic ", "Basic !!!", "Basic " + b64("nocolon"), "Basic " + b64(":"), "Basic " + b64("u:p"), "Bearer abc", "Basic\t" + b64("u:p"),
+		strings.Repeat("A", 9000), "Basic " + strings.Repeat("QUFB", 3000), " ", "Basic  " + b64("u:p") + " trailing"} {
+		for _, host := range []string{"by-mux.example.com", "nosuch.example.com"} {
+			h := ""
+			if pa != "" {
+				h = "Proxy-Authorization: " + pa + "\r\n"
+			}
+			out = append(out, []byte(fmt.Sprintf("CONNECT %s:80 HTTP/1.1\r\nHost: %s:80\r\n%s\r\n", host, host, h)))
+		}
+	}
+	for _, raw := range []string{"GET / HTTP/1.1\r\nHost: by-mux.example.com\r\n\r\n", "CONNECT\r\n\r\n", "CONNECT  HTTP/1.1\r\n\r\n", "CONNECT by-mux.example.com:80\r\n\r\n",
+		"CONNECT by-mux.example.com:80 HTTP/9.9\r\n\r\n", "\r\n\r\n", "\x00\x01\x02\xff\xfe", strings.Repeat("X", 70000), "CONNECT " + strings.Repeat("a", 70000) + ":80 HTTP/1.1\r\n\r\n",
+		"CONNECT by-mux.example.com:80 HTTP/1.1\r\nHost: by-mux.example.com:80\r\nProxy-Authorization\r\n\r\n", "CONNECT by-mux.example.com:80 HTTP/1.1\r\n: novalue\r\n\r\n",
+		"CONNECT [::1:80 HTTP/1.1\r\n\r\n", "CONNECT by-mux.example.com:99999 HTTP/1.1\r\n\r\n", ""} {
+		out = append(out, []byte(raw))
+	}
+	return out
+}
+
+const helloMutations = 3 * 80
+
+// mutateHello: byte i of the ClientHello set to 0xff / 0x00, or the record truncated at i.
+func mutateHello(hello []byte, idx int) []byte {
+	i, kind := idx/3, idx%3
+	if i >= len(hello) {
+		i = len(hello) - 1
+	}
+	out := append([]byte{}, hello...)
+	switch kind {
+	case 0:
+		out[i] = 0xff
+	case 1:
+		out[i] = 0x00
+	default:
+		out = out[:i]
+	}
+	return out
+}
+
+func clientHello(w *sw.World, sni string) []byte {
+	a, b := w.H.Pair("10.99.0.1:1", "10.99.0.2:443")
+	go func() { _ = tls.Client(a, &tls.Config{ServerName: sni, InsecureSkipVerify: true}).Handshake() }()
+	hdr := make([]byte, 5)
+	if _, _, err := b.ReadFullOrIdle(hdr); err != nil {
+		return nil
+	}
+	body := make([]byte, int(hdr[3])<<8|int(hdr[4]))
+	b.ReadFullOrIdle(body)
+	b.Close()
+	a.Close()
+	return append(hdr, body...)
+}
+
+func scMuxIn(kind string, idx int) func(x *vs.Exec) {
+	return func(x *vs.Exec) {
+		defer sw.Guard()
+		w := newWorld(x)
+		by := w.MustLogin("by", sw.LoginOpt{User: "uby"})
+		for _, m := range []*msg.NewProxy{{ProxyName: "by-tcp", ProxyType: "tcp", RemotePort: 20000},
+			{ProxyName: "by-mux", ProxyType: "tcpmux", Multiplexer: "httpconnect", CustomDomains: []string{"by-mux.example.com"}, HTTPUser: "u", HTTPPwd: "p"},
+			{ProxyName: "by-https", ProxyType: "https", CustomDomains: []string{"by-https.example.com"}}} {
+			if r := by.Reg(m); !strings.HasPrefix(r, "ok") {
+				vs.Fail("setup %s: %s", m.ProxyName, r)
+				return
+			}
+		}
+		w.Quiesce()
+		var payload []byte
+		port := 7500
+		if kind == "connect" {
+			cs := connectCases()
+			if idx >= len(cs) {
+				vs.Observe("no such case")
+				w.Teardown()
+				return
+			}
+			payload = cs[idx]
+		} else {
+			port = 7443
+			payload = mutateHello(clientHello(w, "by-https.example.com"), idx)
+		}
+		vs.SetInterest(true)
+		if u, err := w.H.DialFrom("10.5.5.5:5", fmt.Sprintf("127.0.0.1:%d", port)); err == nil {
+			u.Write(payload)
+			buf := make([]byte, 256)
+			u.ReadOrIdle(buf)
+			time.Sleep(12 * time.Second)
+			u.Close()
+		}
+		w.Quiesce()
+		vs.SetInterest(false)
+		if by.Closed {
+			vs.Fail("%s input #%d: the bystander's session was closed", kind, idx)
+		}
+		if who, e := w.UserEcho("10.6.6.6:6", 20000, "alive?"); e != "" || who != "by/by-tcp" {
+			vs.Fail("%s input #%d: the bystander's tunnel no longer works: who=%q err=%s", kind, idx, who, e)
+		}
+		if u, e := w.ConnectMux("10.6.6.8:8", "by-mux.example.com", "Proxy-Authorization: Basic "+base64.StdEncoding.EncodeToString([]byte("u:p"))+"\r\n"); e != "" {
+			vs.Fail("%s input #%d: a well-formed CONNECT with the right credentials no longer works: %s", kind, idx, e)
+		} else {
+			if e := sw.Echo(u, "mux"); e != "" {
+				vs.Fail("%s input #%d: the CONNECT tunnel does not carry data: %s", kind, idx, e)
+			}
+			u.Close()
+		}
+		w.Teardown()
+	}
+}
+
 // scStorm: concurrent mixed traffic from several clients.
 func scStorm(variant int) func(x *vs.Exec) {
 	return func(x *vs.Exec) {
@@ -422,6 +538,10 @@ func scenarios() {
 			fmt.Sscanf(f[3], "%d", &alt)
 			s.Body = scClientField(f[1], f[2], alt)
 			s.End = func(x *vs.Exec) string { return strings.Join(x.Obs, "\n") }
+		case "muxin":
+			var i int
+			fmt.Sscanf(f[2], "%d", &i)
+			s.Body = scMuxIn(f[1], i)
 		case "storm":
 			var v int
 			fmt.Sscanf(f[1], "%d", &v)
@@ -452,7 +572,7 @@ func main() {
 	if c == nil {
 		return
 	}
-	c.Rule("E1: (a) all single-field deviations over extreme-value alphabets (negative / huge integers, empty / 9000-char / control-character strings, nil / empty / 300-entry maps, nil / empty / 1000-entry lists, malformed addresses) of all 18 message types (NewProxy for all 8 proxy types) sent to the real frps as first message of a connection and on an established session, and of the server-to-client types sent by a model server to the real frpc; after each case a bystander session, its tunnel, a fresh login and a fresh tunnel must work, no managed thread may have panicked (= process crash) and none may be stuck after teardown; (b) five concurrent mixed-traffic storms (registration / closure / groups / session cut; secret proxies, visitors and NAT-hole messages against closing proxies; re-login with work connections for dying sessions; user connections waiting for a work connection while the session is cut; NAT-hole sessions of two visitors starting, being answered and ending together) under all schedules with at most B deviations (two default orders) with the happens-before detector on every struct-field map of the instrumented packages; non-trivial = distinct (position, type, field, value)")
+	c.Rule("E1: (a) all single-field deviations over extreme-value alphabets (negative / huge integers, empty / 9000-char / control-character strings, nil / empty / 300-entry maps, nil / empty / 1000-entry lists, malformed addresses) of all 18 message types (NewProxy for all 8 proxy types) sent to the real frps as first message of a connection and on an established session, and of the server-to-client types sent by a model server to the real frpc; (a2) malformed user-side input on the tcpmux CONNECT port (14 Proxy-Authorization shapes x 2 hosts, 14 malformed request heads) and on the https port (a real ClientHello with each of its first 80 bytes set to 0xff / 0x00 or truncated there); after each case a bystander session, its tunnel, a fresh login and a fresh tunnel must work, no managed thread may have panicked (= process crash) and none may be stuck after teardown; (b) five concurrent mixed-traffic storms (registration / closure / groups / session cut; secret proxies, visitors and NAT-hole messages against closing proxies; re-login with work connections for dying sessions; user connections waiting for a work connection while the session is cut; NAT-hole sessions of two visitors starting, being answered and ending together) under all schedules with at most B deviations (two default orders) with the happens-before detector on every struct-field map of the instrumented packages; non-trivial = distinct (position, type, field, value)")
 	pool := vs.GetPool(c.Workers)
 	var names []string
 	wdummy := map[string]msg.Message{}
@@ -497,6 +617,12 @@ func main() {
 			}
 		}
 		names = append(names, fmt.Sprintf("cfield|%s||0", key))
+	}
+	for i := range connectCases() {
+		names = append(names, fmt.Sprintf("muxin|connect|%d", i))
+	}
+	for i := 0; i < helloMutations; i++ {
+		names = append(names, fmt.Sprintf("muxin|hello|%d", i))
 	}
 	for i := 0; i < len(names); i += 512 {
 		if c.TimeUp() {
